@@ -120,6 +120,20 @@ impl EntrySink<RootMetric<Work>> for RecSink {
     }
 }
 
+/// sink of the entries the thread emitted before the one under test
+#[derive(Clone)]
+pub struct NullSink;
+impl EntrySink<RootMetric<Work>> for NullSink {
+    fn append(&self, _entry: RootMetric<Work>) {}
+    fn flush_async(&self) -> FlushWait {
+        FlushWait::ready()
+    }
+}
+enum Stale {
+    Force(#[allow(dead_code)] metrique::ForceFlushGuard),
+    Flush(#[allow(dead_code)] FlushGuard),
+}
+
 /// sink of the second entry (B) of `late_delay` with `foreign`
 #[derive(Clone)]
 pub struct ForeignSink(ULog, u64);
@@ -323,6 +337,13 @@ fn uow_main(plan: &Value, log: ULog) {
             }
         }));
     }
+    // plan key `earlier_entries`: entries of the same type this thread emitted earlier; a guard of each is still around
+    let mut stale: Vec<Stale> = vec![];
+    for k in 0..ju(plan, "earlier_entries", 0) {
+        let a = Work::default().append_on_drop(NullSink);
+        stale.push(if k % 2 == 0 { Stale::Force(a.force_flush_guard()) } else { Stale::Flush(a.flush_guard()) });
+        drop(a);
+    }
     let mut owner: Option<Owner> = Some(Work::default().append_on_drop(RecSink(log.clone())));
     log.log(UK::Create { obj: 0, kind: "owner" });
     for op in ja(plan, "main_ops") {
@@ -465,6 +486,11 @@ fn uow_main(plan: &Value, log: ULog) {
                         log.log(UK::WaitData { slot: 1, got });
                     }
                 }
+            }
+            "drop_stale" => {
+                detsim::yield_point();
+                drop(stale.pop());
+                detsim::yield_point();
             }
             "late_delay" => {
                 // delay_flush on a slot guard that left the owner long ago - perhaps after the owner is gone, perhaps
@@ -1061,10 +1087,20 @@ pub fn gen_uow(rng: &mut Rng, slots: bool) -> Value {
         }
     }
     let sched = gen_sched(rng, &SchedOpts { est_choices: 150, threads: nd + 1, jump_max_ns: 0, stall_clock_max_ns: 0, max_steps: 30_000 });
+    // a sixth of the plans: the thread has emitted 1 - 3 entries before this one, and still holds a guard of each (a
+    // force-flush guard, or a flush guard that delayed that entry); those stale guards are dropped at seeded moments of
+    // this entry's life and must mean nothing to it. Decided from the schedule seed: no other draw of the plan moves.
+    let hk = mix(ju(&sched, "seed", 0), 0x57a1e);
+    let earlier = if hk % 6 == 0 { 1 + (hk / 6) % 3 } else { 0 };
+    for i in 0..earlier {
+        let at = (mix(hk, i) % (main_ops.len() as u64 + 1)) as usize;
+        main_ops.insert(at, json!({"op":"drop_stale"}));
+    }
     json!({
         "sched": sched,
         "main_ops": main_ops,
         "droppers": droppers,
+        "earlier_entries": earlier,
     })
 }
 
